@@ -91,7 +91,7 @@ def _worker(job):
             "z3q": solve.STATS["z3_queries"], "z3_confirmed": ctx.z3_confirmed, "bounded": ctx.bounded,
             "wall": time.time() - t0, "error": err, "rewritten": getattr(ctx, "rewritten", []), "cov": sorted(_COV),
             "generic_done": getattr(ctx, "generic_done", []), "generic_skipped": getattr(ctx, "generic_skipped", []),
-            "gprims": dict(_gen_prims())}
+            "gprims": dict(_gen_prims()), "gconf": getattr(ctx, "gconf", None)}
 
 
 def _child(job, conn):
@@ -246,6 +246,19 @@ def run_check(prop, tier, seed, jobs=None):
         except Exception as e:
             conf = {"calls": 0, "mismatches": [("conformance sampler", "crashed: %r" % (e,))]}
         main[0]["bounded"].append({"label": "primitive-model conformance sample", "calls": conf["calls"], "mismatches": conf["mismatches"]})
+    gcalls, gmis, gskip = 0, [], []
+    for r in main:
+        g = r.get("gconf")
+        if g:
+            gcalls += g["calls"]
+            gmis += g["mismatches"]
+            gskip += g.get("skipped", [])
+    if gcalls or gmis:
+        main[0]["bounded"].append({"label": "front end G cross-check: real code on float tensors vs the contract evaluated numerically (sampled sizes and inputs)",
+                                   "calls": gcalls, "mismatches": gmis, "skipped": gskip[:10]})
+        if gmis:
+            conf = conf or {"calls": 0, "mismatches": []}
+            conf["mismatches"] = list(conf["mismatches"]) + gmis
     wall = time.time() - t0
     ev = evidence.build(prop, tier, seed, L, main, can, obls, viol, und, reported, known_hits, dead, crashes, wall)
     evidence.write(prop, ev)
